@@ -196,6 +196,20 @@ def interp_suite(ctx, corr, plug, vals, model):
             if r != "err MemoryLocationNotImplemented":
                 corr.violate("mem:%s:from_list" % key, {"value": key, "list": lst},
                              "MemoryLocationNotImplemented", r, "a missing location must not be interpreted")
+        # the bank image may be any sequence of bytes - what read_all builds is a list, an application that keeps
+        # a dump has bytes / bytearray / tuple: the interpretation must be the same  (after seeded round 6)
+        for raw in (sample if len(sample) <= 24 else [sample[ctx.rng.randrange(len(sample))] for _ in range(24)]):
+            filled = [0xEE] * size
+            for a, b in zip(addrs, raw):
+                filled[a] = b
+            want = run(lambda: cls.from_list(list(filled)))
+            for fname, form in (("tuple", tuple), ("bytes", bytes), ("bytearray", bytearray),
+                                ("memoryview", lambda x: memoryview(bytes(x)))):
+                got = run(lambda: cls.from_list(form(filled)))
+                if got != want:
+                    corr.violate("mem:%s:from_list" % key, {"value": key, "raw": hx(raw), "image": fname},
+                                 want, got, "the bank image given as %s must be interpreted like the list" % fname)
+            corr.count("from_list(image forms)", 4)
         short = [9] * (max(addrs))
         req2.append("fromlist %s %s %s" % (d["bank"], d["name"], ",".join(map(str, short)) or "-"))
         impl2.append(run(lambda: cls.from_list(short)))
